@@ -70,16 +70,33 @@ func c19Ext4(t, tt map[string]any) map[string]any {
 		ev["res"], ev["detail"] = "setup", err.Error()
 		return ev
 	}
+	p := "a.txt"
+	if str(t, "tgt") == "dir" {
+		p = "dir1"
+	}
+	if str(t, "pre") == "max" {
+		// an earlier call of the same kind left an extreme value behind
+		var perr error
+		if pn := fsx.Catch(func() {
+			switch str(t, "op") {
+			case "chmod":
+				perr = v.FS.Chmod(p, parseMode("7777"))
+			case "chown":
+				perr = v.FS.Chown(p, 4294967294, 65535)
+			case "chtimes":
+				perr = v.FS.Chtimes(p, time.Unix(4354819198, 0), time.Unix(4354819198, 0), time.Unix(4354819198, 0))
+			}
+		}); pn != "" || perr != nil {
+			ev["res"], ev["detail"] = "setup", fmt.Sprintf("pre-state: %v %v", pn, perr)
+			return ev
+		}
+	}
 	before, err := c19ProjectExt4(v.FS)
 	if err != nil {
 		ev["res"], ev["detail"] = "setup", err.Error()
 		return ev
 	}
 	ev["before"] = before
-	p := "a.txt"
-	if str(t, "tgt") == "dir" {
-		p = "dir1"
-	}
 	cls := str(t, "cls")
 	var sets []any
 	var oerr error
